@@ -310,8 +310,7 @@ Lemma produce_partitions_no_clock clock magic : forall ps k,
   encode_produce_partitions clock k magic ps = enc_all (enc_produce_part magic) ps.
 Proof.
   induction ps as [|[pt x] r IH]; intros k H; cbn [encode_produce_partitions enc_all]; [reflexivity|].
-  rewrite (IH _ (fun pp I => H pp (or_intror I))). unfold enc_produce_part at 1. cbn [fst snd].
-  unfold encode_message_set.
+  rewrite (IH _ (fun pp I => H pp (or_intror I))). unfold enc_produce_part, encode_message_set. cbn [fst snd].
   rewrite (encode_set_no_clock clock (fun _ => 0%Z) (pr_messages x) k O 0%Z 0%Z magic (H (pt, x) (or_introl eq_refl))).
   bind_cases.
 Qed.
